@@ -381,6 +381,169 @@ def debug_node_in_deactivated_nested_dag(k):
     return msgs
 
 
+# ------------------------------------------------------------------------------ C08 / C04: a wide DAG with a large limit
+def wide_parallelism(k, is_async):
+    """N independent thread nodes, max_concurrency = N (larger than any default pool size): all N must be running
+    together (they meet on a barrier); with max_concurrency = 7 never more than 7 are inside their functions"""
+    import os as _os
+    n = max(40, (_os.cpu_count() or 1) + 8)
+    out = []
+    for maxc in (n, 7):
+        bar = threading.Barrier(n) if maxc == n else None
+        lock = threading.Lock()
+        live = {"now": 0, "peak": 0, "met": 0}
+
+        def body(j):
+            with lock:
+                live["now"] += 1
+                live["peak"] = max(live["peak"], live["now"])
+            try:
+                if bar is not None:
+                    try:
+                        bar.wait(6)
+                        with lock:
+                            live["met"] += 1
+                    except threading.BrokenBarrierError:
+                        pass
+                else:
+                    time.sleep(0.004)
+            finally:
+                with lock:
+                    live["now"] -= 1
+            return j
+        fs = [tawazi.xn(named((lambda j: (lambda: body(j)))(j), "sc_w%d_%d_%d" % (k, maxc, j)), resource=(Resource.async_thread if (is_async and j % 2) else Resource.thread)) for j in range(n)]
+
+        def desc():
+            return [f() for f in fs]
+        d = tawazi.dag(named(desc, "sc_wide%d_%d" % (k, maxc)), max_concurrency=maxc, is_async=is_async)
+        st = in_thread((lambda: asyncio.run(d())) if is_async else (lambda: d()), 30)
+        if st[0] != "ok":
+            out.append(("C09", "wide DAG (%d independent nodes, max_concurrency=%d): %r" % (n, maxc, st)))
+            continue
+        if maxc == n and live["met"] != n:
+            out.append(("C08", "%d independent ready nodes and max_concurrency=%d: only %d of them were ever running together (the others waited although slots were free)" % (n, maxc, live["peak"])))
+        if maxc != n and live["peak"] > maxc:
+            out.append(("C04", "max_concurrency=%d: %d nodes were inside their functions at the same time" % (maxc, live["peak"])))
+    return out
+
+
+# ------------------------------------------------------------------------------ C11: the stored setup value IS the value later calls get
+def setup_value_identity(k, is_async):
+    """setup nodes returning builtin containers (list / dict / set) and a chained setup node: every later execution
+    (call, executor, after setup()) hands its nodes THE object computed the first time, not a copy of it"""
+    out = []
+    for kind_, mkv in (("list", lambda: [1, 2]), ("dict", lambda: {"memo": 1}), ("set", lambda: {1, 2}), ("tuple", lambda: (1, [2]))):
+        seen = []
+        cnt = {"n": 0}
+
+        def load():
+            cnt["n"] += 1
+            return mkv()
+        lx = tawazi.xn(named(load, "sc_idl%d_%s" % (k, kind_)), setup=True)
+
+        def chained(v):
+            seen.append(("chained", id(v)))
+            return v
+        cx = tawazi.xn(named(chained, "sc_idc%d_%s" % (k, kind_)), setup=True)
+
+        def use(v, w, x):
+            seen.append(("use", id(v), id(w)))
+            return x
+        ux = tawazi.xn(named(use, "sc_idu%d_%s" % (k, kind_)))
+
+        def desc(x):
+            v = lx()
+            return ux(v, cx(v), x)
+        d = tawazi.dag(named(desc, "sc_id%d_%s" % (k, kind_)), is_async=is_async)
+        call = (lambda th: in_thread(lambda: asyncio.run(th()), 10)) if is_async else (lambda th: in_thread(th, 10))
+        sts = []
+        if k % 2:
+            sts.append(call(lambda: d.setup()))
+        sts.append(call(lambda: d(1)))
+        sts.append(call(lambda: d(2)))
+        ex = d.executor()
+        sts.append(call(lambda: ex(3)))
+        if any(st[0] != "ok" for st in sts):
+            out.append("setup node returning a %s: %r" % (kind_, [st for st in sts if st[0] != "ok"][:1]))
+            continue
+        if cnt["n"] != 1:
+            out.append("setup node returning a %s ran %d times over 3 executions" % (kind_, cnt["n"]))
+        uses = [e for e in seen if e[0] == "use"]
+        ids_ = {e[1] for e in uses} | {e[2] for e in uses} | {e[1] for e in seen if e[0] == "chained"}
+        if len(ids_) != 1:
+            out.append("setup node returning a %s: later executions were handed %d different objects for the one stored setup result (copies of it)" % (kind_, len(ids_)))
+    return out
+
+
+# ------------------------------------------------------------------------------ C16 / C18: concurrent executors writing cache files
+class SlowPickle:
+    """a result whose pickling takes a moment (so that the cache writes of concurrent runs overlap)"""
+
+    def __init__(self, v):
+        self.v = v
+
+    def __reduce__(self):
+        time.sleep(0.05)
+        return (SlowPickle, (self.v,))
+
+
+def concurrent_cache_writes(k, tmpdir):
+    """4 threads run executors of ONE shared DAG at the same time, each with its own argument and its own cache_in file in
+    one directory: every run returns its own value and every file holds the results of its own run"""
+    import os as _os
+    import pickle
+    _os.makedirs(tmpdir, exist_ok=True)
+
+    def a(x):
+        return SlowPickle(("a", x))
+    ax = tawazi.xn(named(a, "sc_cwa%d" % k))
+
+    def b(v):
+        return ("b", v.v)
+    bx = tawazi.xn(named(b, "sc_cwb%d" % k))
+
+    def desc(x):
+        return bx(ax(x))
+    d = tawazi.dag(named(desc, "sc_cw%d" % k), max_concurrency=2)
+    out = []
+    res_ = {}
+
+    def worker(i):
+        p = _os.path.join(tmpdir, "cw%d_%d.pkl" % (k, i))
+        try:
+            res_[i] = ("ok", d.executor(cache_in=p)(i), p)
+        except BaseException as e:  # noqa: BLE001
+            res_[i] = ("raise", "%s: %s" % (type(e).__name__, e), p)
+    ths = [threading.Thread(target=worker, args=(i,), daemon=True) for i in range(4)]
+    for th in ths:
+        th.start()
+    for th in ths:
+        th.join(20)
+    for i in range(4):
+        r = res_.get(i)
+        if r is None:
+            out.append("thread %d: executor with cache_in did not return" % i)
+        elif r[0] != "ok":
+            out.append("thread %d: concurrent executors of one DAG, each with its own cache file: %s" % (i, r[1]))
+        else:
+            if r[1] != ("b", ("a", i)):
+                out.append("thread %d got %r, the result for its own argument is %r" % (i, r[1], ("b", ("a", i))))
+            try:
+                f = pickle.load(open(r[2], "rb"))
+                vals = sorted(repr(v.v if isinstance(v, SlowPickle) else v) for v in f.values())
+                own = sorted(repr(v) for v in (i, ("a", i), ("b", ("a", i))))
+                if vals != own:
+                    out.append("the cache file of thread %d holds %s, its own run computed %s" % (i, vals, own))
+            except BaseException as e:  # noqa: BLE001
+                out.append("the cache file of thread %d is unreadable: %s" % (i, type(e).__name__))
+    for i in range(4):
+        try:
+            _os.remove(_os.path.join(tmpdir, "cw%d_%d.pkl" % (k, i)))
+        except OSError:
+            pass
+    return out
+
+
 def run(pid, tier, seed, res):
     n = 2 if tier == "quick" else 8
     for k in range(n):
@@ -404,6 +567,21 @@ def run(pid, tier, seed, res):
                 res.hit("C16", "monitor", msg, dict(engine="scenario", kind="monitor", scenario="concurrent_builds_stress", k=k))
             for msg in concurrent_calls_stress(k, 2.5 if tier == "quick" else 15.0):
                 res.hit("C16", "monitor", msg, dict(engine="scenario", kind="monitor", scenario="concurrent_calls_stress", k=k))
+        if pid in ("C08", "C04") and k == 0:
+            for fl in (False, True):
+                res.evaluations += 1
+                for p_, msg in wide_parallelism(2 * k + int(fl), fl):
+                    res.hit(p_, "monitor", msg, dict(engine="scenario", kind="monitor", scenario="wide_parallelism", k=k, is_async=fl))
+        if pid == "C11":
+            for fl in (False, True):
+                res.evaluations += 1
+                for msg in setup_value_identity(2 * k + int(fl), fl):
+                    res.hit("C11", "monitor", msg, dict(engine="scenario", kind="monitor", scenario="setup_value_identity", k=k, is_async=fl))
+        if pid in ("C16", "C18"):
+            res.evaluations += 1
+            from . import coqrun as _cq
+            for msg in concurrent_cache_writes(k, __import__("os").path.join(_cq.BUILD, "cw_%s" % pid)):
+                res.hit(pid, "monitor", msg, dict(engine="scenario", kind="monitor", scenario="concurrent_cache_writes", k=k))
         if pid in ("C10", "C13"):
             res.evaluations += 1
             for msg in debug_node_in_deactivated_nested_dag(k):
